@@ -38,19 +38,20 @@ func typeSetOf(tp *types.TypeParam) []types.Type {
 }
 
 type armFacts struct {
-	typ       types.Type
-	width     int64 // sizeof on the target
-	makeLens  []int64
-	litLens   []int64
-	binCalls  []string // e.g. BigEndian.PutUint16
-	xorConsts []string // exact constants XORed / ORed
-	shifts    []string
-	addConsts []string
-	cmpConsts []string // constants compared with == (special codes)
-	assigned  []string // constants assigned (special codes)
-	pos       token.Pos
-	codeOf    map[string]string // Transform: special value class (inf+ / inf- / nan) → code assigned under its test
-	classOf   map[string]string // Restore: code tested → special value class produced under that test
+	typ        types.Type
+	width      int64 // sizeof on the target
+	makeLens   []int64
+	litLens    []int64
+	binCalls   []string // e.g. BigEndian.PutUint16
+	xorConsts  []string // exact constants XORed / ORed
+	shifts     []string
+	addConsts  []string
+	cmpConsts  []string // constants compared with == (special codes)
+	assigned   []string // constants assigned (special codes)
+	pos        token.Pos
+	mathConsts []string          // math.MaxFloat32, math.MaxUint64 … used in the arm
+	codeOf     map[string]string // Transform: special value class (inf+ / inf- / nan) → code assigned under its test
+	classOf    map[string]string // Restore: code tested → special value class produced under that test
 }
 
 // specialClass: the class of special float value an expression tests for or produces.
@@ -192,6 +193,15 @@ func (c *Ctx) collectArmInto(af *armFacts, st ast.Node, depth int, visited map[*
 							af.classOf = map[string]string{}
 						}
 						af.classOf[underCode] = cl
+					}
+				}
+			}
+			if sel, ok := n.(*ast.SelectorExpr); ok {
+				if id, ok := sel.X.(*ast.Ident); ok {
+					if pn, ok := info.Uses[id].(*types.PkgName); ok && pn.Imported().Path() == "math" {
+						if _, isConst := info.Uses[sel.Sel].(*types.Const); isConst {
+							af.mathConsts = append(af.mathConsts, sel.Sel.Name)
+						}
 					}
 				}
 			}
@@ -410,6 +420,25 @@ func ruleR15(c *Ctx) {
 					c.r.ok("R15", key, m.pos(af.pos), strings.Join(af.binCalls, ","), props...)
 				} else {
 					c.r.bad("R15", key, m.pos(af.pos), fmt.Sprintf("expected only binary.%s, found %v: another byte order or width round-trips but does not preserve order", want, af.binCalls), props...)
+				}
+			}
+			// limits of the other width (a float64 arm copied from the float32 one that still compares
+			// with math.MaxFloat32)
+			if bitsW == 32 || bitsW == 64 {
+				other := map[int64]string{32: "64", 64: "32"}[bitsW]
+				for dir, af := range map[string]*armFacts{"Transform": ta, "Restore": ra} {
+					key := fmt.Sprintf("%s[%s].%s uses the limits of its own width", name, ts, dir)
+					var foreign []string
+					for _, mc := range af.mathConsts {
+						if strings.HasSuffix(mc, other) {
+							foreign = append(foreign, "math."+mc)
+						}
+					}
+					if len(foreign) == 0 {
+						c.r.ok("R15", key, m.pos(af.pos), fmt.Sprintf("no math.*%s constant in the %d-bit arm", other, bitsW), props...)
+					} else {
+						c.r.bad("R15", key, m.pos(af.pos), fmt.Sprintf("the %d-bit arm compares with or assigns %s: values between the two limits are classified as special values or encoded with the wrong width", bitsW, strings.Join(foreign, ", ")), props...)
+					}
 				}
 			}
 			signBit := new(big.Int).Lsh(big.NewInt(1), uint(bitsW-1)).String()
